@@ -78,6 +78,7 @@ func init() {
 					_, known := ref[name]
 					if ref[name] == showDecor(decoration.Decoration{}) {
 						known = false // registered with the empty value: selecting it is refused like an unknown name
+						pendingKnown = append(pendingKnown, "d21-registered-empty-decoration") // (recorded under C19)
 					}
 					if (res == "ok") != known {
 						viol = append(viol, fmt.Sprintf("SetDecorationNamed(%q) = %s, registered=%v", name, res, known))
